@@ -294,6 +294,8 @@ type Call struct {
 	Empty         []int // per-node function returns a valid message with every field at its default for these endpoints
 	MutateInPlace bool  // the per-node function changes the message it is given and returns it (it is documented to receive a copy)
 	NoSendWaiting bool
+	// Hook, if set, runs at the start of every invocation of the per-node function.
+	Hook func(id uint32)
 	// Verdict is the quorum function's decision for one invocation (nil: threshold 1).
 	Verdict func(inv *QFInv)
 
@@ -362,6 +364,9 @@ func (c *Call) skips(node int) bool {
 
 // PerNode is the per-node function used for calls that take one.
 func (c *Call) PerNode(r *dev.Request, id uint32) *dev.Request {
+	if c.Hook != nil {
+		c.Hook(id)
+	}
 	if c.skips(int(id)) {
 		return nil
 	}
